@@ -201,6 +201,23 @@ pub fn pages_of_str(s: &str) -> Vec<Page<'static>> {
     } else {
         // pages are built over owned buffers or as views of borrowed ones (leaked: the harness is short-lived),
         // alternating by position and content, so that both constructions are sent through the controller
+        // every third list (decided by its content): all pages are views of consecutive regions of ONE buffer, back to back
+        let lits: Vec<Vec<&str>> = s.split('+').map(|lit| lit.split('.').collect()).collect();
+        let all: Vec<Vec<u8>> = lits.iter().map(|p| bytes_of_hex(p[2])).collect();
+        let total: usize = all.iter().map(|b| b.iter().map(|x| *x as usize).sum::<usize>()).sum();
+        if lits.len() >= 2 && (lits.len() + total) % 3 == 0 {
+            let buf: &'static [u8] = Box::leak(all.concat().into_boxed_slice());
+            let mut at = 0usize;
+            return lits
+                .iter()
+                .zip(all.iter())
+                .map(|(p, b)| {
+                    let view = &buf[at..at + b.len()];
+                    at += b.len();
+                    Page::from_bytes(p[0].parse().unwrap(), p[1].parse().unwrap(), view).expect("bad page literal")
+                })
+                .collect();
+        }
         s.split('+')
             .enumerate()
             .map(|(i, lit)| {
